@@ -38,6 +38,26 @@ def gd_uw(ng):
         ["resize_group_descriptors.0:%d" % (ng + 1), "resize_group_descriptors.1:%d" % (ng + 1),
          "ext2fs_group_desc_csum_set.0:%d" % (ng + 1)]
 
+def bm_uw(og, ng, bpg=16):
+    nb = 1 + max(og, ng) * bpg
+    mn = min(og, ng)
+    beyond = max(og - ng, 0) * bpg + 1
+    return ["main.%d:%d" % (i, nb + 1) for i in range(13)] + \
+        ["blocks_to_move.0:%d" % (ng + 1), "blocks_to_move.1:%d" % beyond, "blocks_to_move.2:5", "blocks_to_move.3:%d" % (mn + 1),
+         "blocks_to_move.4:5", "blocks_to_move.5:%d" % (mn + 1), "blocks_to_move.6:3", "blocks_to_move.7:3",
+         "blocks_to_move.8:%d" % (mn + 1), "test_root.0:3",
+         "ext2fs_mark_generic_bmap.0:%d" % (nb + 1), "ext2fs_unmark_generic_bmap.0:%d" % (nb + 1),
+         "ext2fs_test_generic_bmap.0:%d" % (nb + 1), "ext2fs_block_alloc_stats2.0:%d" % (nb + 1),
+         "mark_table_blocks.0:%d" % (nb + 1), "reserve_sparse_super2_last_group.0:%d" % (nb + 1),
+         "ext2fs_mark_block_bitmap_range2.0:6"]
+
+def ss2_uw(og, ng, bpg=16):
+    nb = 1 + og * bpg
+    return ["main.%d:%d" % (i, nb + 1) for i in range(10)] + \
+        ["reserve_sparse_super2_last_group.0:%d" % (ng + 1), "reserve_sparse_super2_last_group.1:7", "test_root.0:3",
+         "ext2fs_mark_generic_bmap.0:%d" % (nb + 1), "ext2fs_unmark_generic_bmap.0:%d" % (nb + 1),
+         "ext2fs_test_generic_bmap.0:%d" % (nb + 1), "ext2fs_mark_block_bitmap_range2.0:6"]
+
 HARNESSES = [
     dict(name="errflag", src="errflag.c",
          funcs=["resize_fs", "ext2fs_dup_handle"],
@@ -99,6 +119,42 @@ HARNESSES = [
          unwind=4, witness_per_config=True, backends=["default"],
          bound="3 and 17 groups (17: the table grows from 1 to 2 descriptor blocks), 1 KiB blocks; all descriptor bytes, "
                "size, requested size, flags, reserved GDT count symbolic"),
+    dict(name="eamove", src="eamove.c",
+         funcs=["migrate_ea_block", "extent_translate", "ext2fs_extent_translate", "ext2fs_add_extent_entry",
+                "ext2fs_file_acl_block", "ext2fs_file_acl_block_set"],
+         extra_src=["resize/extent.c", "lib/ext2fs/blknum.c"],
+         configs=[{"CSUM": 0}, {"CSUM": 1}],
+         unwind=4, witness_per_config=True, backends=["default"],
+         bound="every i_file_acl (32 bit / 48 bit with the 64bit feature), every single-block map entry, with and without map, "
+               "metadata_csum on/off (one query each), symbolic read/write errors"),
+    dict(name="inoscan", src="inoscan.c",
+         funcs=["inode_scan_and_fix", "ext2fs_add_extent_entry", "ext2fs_extent_translate", "ext2fs_free_extent_table"],
+         extra_src=["resize/extent.c"],
+         cut_statics={"resize/resize2fs.c": ["migrate_ea_block", "fix_ea_inode_refs"]},
+         configs=[{"OLDG": 3, "HAS_BMAP": 1}, {"OLDG": 3, "HAS_BMAP": 0}, {"OLDG": 2, "HAS_BMAP": 1}, {"OLDG": 2, "HAS_BMAP": 0}],
+         unwind=4, unwindset=["inode_scan_and_fix.0:3"], witness_per_config=True, backends=["default"],
+         bound="one inode per scan: every number 1..48 (old: 3 or 2 groups x 16 inodes; new: 2 x 16, start_to_move = 32), every link count, "
+               "mode, flag word; EA step result, valid-blocks answer, metadata_csum, ea_inode feature symbolic; with / without block map"),
+    dict(name="blkmove", src="blkmove.c",
+         funcs=["blocks_to_move", "mark_fs_metablock", "ext2fs_bg_has_super", "ext2fs_group_of_blk2", "ext2fs_inode_table_loc"],
+         extra_src=["lib/ext2fs/closefs.c", "lib/ext2fs/blknum.c"],
+         cut_statics={"resize/resize2fs.c": ["mark_table_blocks", "reserve_sparse_super2_last_group"]},
+         configs=[{"OLDG": 3, "NEWG": 2, "_unwindset": bm_uw(3, 2)},
+                  {"OLDG": 2, "NEWG": 3, "_unwindset": bm_uw(2, 3)},
+                  {"OLDG": 3, "NEWG": 1, "_unwindset": bm_uw(3, 1)},
+                  {"OLDG": 4, "NEWG": 2, "_unwindset": bm_uw(4, 2), "_tier": "thorough"}],
+         unwind=4, witness_per_config=True, backends=["default"],
+         bound="3 -> 2 and 3 -> 1 groups (shrink), 2 -> 3 groups (grow), thorough 4 -> 2; 16 blocks per group, inode table 2 blocks; in-use and metadata sets, "
+               "all group metadata locations and flags, descriptor blocks 1..2 and reserved GDT 0..2 on both sides, sparse_super(2), csum: symbolic"),
+    dict(name="ss2reserve", src="ss2reserve.c",
+         funcs=["reserve_sparse_super2_last_group", "ext2fs_super_and_bgd_loc2", "ext2fs_bg_has_super"],
+         extra_src=["lib/ext2fs/closefs.c", "lib/ext2fs/blknum.c"],
+         configs=[{"OLDG": 3, "NEWG": 2, "_unwindset": ss2_uw(3, 2)},
+                  {"OLDG": 3, "NEWG": 3, "_unwindset": ss2_uw(3, 3)},
+                  {"OLDG": 4, "NEWG": 3, "_unwindset": ss2_uw(4, 3), "_tier": "thorough"}],
+         unwind=4, witness_per_config=True, backends=["default"],
+         bound="3 -> 2 groups, 3 -> 3 (function must not apply), thorough 4 -> 3; 16 blocks per group, inode table 2 blocks; in-use / metadata sets, "
+               "group metadata locations, descriptor blocks 1..2, reserved GDT 0..2, sparse_super2 and both s_backup_bgs pairs symbolic"),
 ]
 MANIFEST = {
     "text": "Bounded-exhaustive model checking (CBMC) of four kernels of resize2fs compiled from the real sources: the error-flag "
